@@ -57,8 +57,8 @@ theorem paused_iff_step {u : Int} {s s' : State} {i : Identity} (h : step u s (.
       (o'.paused = true ↔
         ∃ j r, (j, r) ∈ s.status ∧ j ≠ i ∧ s.now < r.lastseen + r.lifetime * u ∧ r.priority ≥ o.prio) := by
   obtain ⟨o, ho, _, _, _, _, _, hops⟩ := deliver_spec h
-  refine ⟨o, { o with paused := blockedB u s.status i o.prio s.now, seen := some (s.ver, s.now) }, ho,
-    by rw [hops]; simp, rfl, ?_⟩
+  refine ⟨o, { o with paused := blockedB u s.status i o.prio s.now, seen := some (s.ver, s.now),
+                      sleeping := willTouch u s i o }, ho, by rw [hops]; simp, rfl, ?_⟩
   simp only [blockedB_iff, dead_false_iff]
 
 /-! ## exactly the top-priority running operator is active -/
@@ -106,8 +106,10 @@ theorem equal_priority_both_paused {u : Int} {s s1 s2 : State} {i j : Identity} 
   rw [hi] at ho1; injection ho1 with ho1; subst ho1
   have hj1 : s1.ops j = some oj := by rw [hops1, updOp_other _ _ (Ne.symm hne)]; exact hj
   rw [hj1] at ho2; injection ho2 with ho2; subst ho2
-  refine ⟨{ oi with paused := blockedB u s.status i oi.prio s.now, seen := some (s.ver, s.now) },
-    { oj with paused := blockedB u s1.status j oj.prio s1.now, seen := some (s1.ver, s1.now) },
+  refine ⟨{ oi with paused := blockedB u s.status i oi.prio s.now, seen := some (s.ver, s.now),
+                    sleeping := willTouch u s i oi },
+    { oj with paused := blockedB u s1.status j oj.prio s1.now, seen := some (s1.ver, s1.now),
+              sleeping := willTouch u s1 j oj },
     by rw [hops2, updOp_other _ _ hne, hops1]; simp, by rw [hops2]; simp, ?_, ?_⟩
   · show blockedB u s.status i oi.prio s.now = true
     rw [blockedB_iff]
@@ -330,6 +332,142 @@ theorem dead_cleaned_step {u : Int} {s s' : State} {i : Identity} (h : step u s 
   rw [hst, List.mem_filter]
   simp
 
+/-! ## the withdrawal can be undone (finding F2), and when it cannot -/
+
+/-- A graceful exit does NOT wake a `process_peering_event` call that sleeps towards a blocker's deadline; when it
+    wakes it touches the record back. Concretely: B (priority 10) is paused by A (priority 100), exits gracefully —
+    record removed —, then its sleeping call wakes: B's record is in the status again although B is gone.
+    (Replayed on the real code as corpus/C13/F2.json.) -/
+theorem late_self_touch_witness :
+    ((run 64 init [.start "A" 100 2, .start "B" 10 10, .keepalive "A", .keepalive "B", .deliver "B", .exit "B", .tick 64, .wake "B"]).map
+      (fun s => ((s.ops "B").map (·.alive), s.status.map (·.1)))) = some (some false, ["A", "B"]) := by decide
+
+/-- `withdraw_on_exit`, made permanent — partial: it needs that no call of the operator was sleeping when it exited
+    (and, of course, that nobody starts it again or writes a record under its name). Then, whatever else happens in any
+    order, its record never comes back. Without `hs` the statement is false: `late_self_touch_witness`. -/
+theorem withdrawn_stays_partial {u : Int} {i : Identity} : ∀ (ls : List Label) (s s' : State),
+    (∃ o, s.ops i = some o ∧ o.alive = false ∧ o.sleeping = false) → (∀ r, (i, r) ∉ s.status) →
+    (∀ l ∈ ls, (∀ p lt, l ≠ .start i p lt) ∧ (∀ r, l ≠ .foreign i (some r))) →
+    run u s ls = some s' → ∀ r, (i, r) ∉ s'.status := by
+  intro ls
+  induction ls with
+  | nil => intro s s' _ hn _ h; simp only [run, Option.some.injEq] at h; subst h; exact hn
+  | cons l rest ih =>
+    intro s s' ⟨o, ho, hoa, hos⟩ hn hall h
+    simp only [run] at h
+    cases hs : step u s l with
+    | none => simp [hs] at h
+    | some s1 =>
+      simp only [hs] at h
+      obtain ⟨hl1, hl2⟩ := hall l List.mem_cons_self
+      refine ih s1 s' ?_ ?_ (fun l hl => hall l (List.mem_cons_of_mem _ hl)) h
+      · -- the operator stays gone and without a sleeping call
+        cases l with
+        | start j p lt =>
+          have hji : j ≠ i := fun e => hl1 p lt (by rw [e])
+          simp only [step] at hs
+          refine ⟨o, ?_, hoa, hos⟩
+          cases hj : s.ops j with
+          | none => simp [hj] at hs; subst hs; simp only [updOp_other _ _ (Ne.symm hji)]; exact ho
+          | some oj =>
+            simp only [hj] at hs
+            by_cases hja : oj.alive = true
+            · simp [hja] at hs
+            · simp [hja] at hs; subst hs; simp only [updOp_other _ _ (Ne.symm hji)]; exact ho
+        | keepalive j =>
+          simp only [step] at hs
+          cases hj : s.ops j with
+          | none => simp [hj] at hs
+          | some oj =>
+            simp only [hj] at hs
+            by_cases hja : oj.alive = true
+            · simp only [hja, if_true, Option.some.injEq] at hs; subst hs; exact ⟨o, ho, hoa, hos⟩
+            · simp [hja] at hs
+        | exit j =>
+          obtain ⟨oj, hj, hja, _, _, hops⟩ := exit_spec hs
+          have hji : j ≠ i := by intro e; subst e; rw [ho] at hj; injection hj with hj; subst hj; rw [hoa] at hja; cases hja
+          exact ⟨o, by rw [hops, updOp_other _ _ (Ne.symm hji)]; exact ho, hoa, hos⟩
+        | kill j =>
+          obtain ⟨oj, hj, hja, _, _, hops⟩ := kill_spec hs
+          have hji : j ≠ i := by intro e; subst e; rw [ho] at hj; injection hj with hj; subst hj; rw [hoa] at hja; cases hja
+          exact ⟨o, by rw [hops, updOp_other _ _ (Ne.symm hji)]; exact ho, hoa, hos⟩
+        | deliver j =>
+          obtain ⟨oj, hj, hja, _, _, _, _, hops⟩ := deliver_spec hs
+          have hji : j ≠ i := by intro e; subst e; rw [ho] at hj; injection hj with hj; subst hj; rw [hoa] at hja; cases hja
+          exact ⟨o, by rw [hops, updOp_other _ _ (Ne.symm hji)]; exact ho, hoa, hos⟩
+        | tick d => simp only [step, Option.some.injEq] at hs; subst hs; exact ⟨o, ho, hoa, hos⟩
+        | expire j => simp only [step, Option.some.injEq] at hs; subst hs; exact ⟨o, ho, hoa, hos⟩
+        | foreign j r => simp only [step, Option.some.injEq] at hs; subst hs; exact ⟨o, ho, hoa, hos⟩
+        | wake j =>
+          simp only [step] at hs
+          cases hj : s.ops j with
+          | none => simp [hj] at hs
+          | some oj =>
+            simp only [hj] at hs
+            by_cases hjs : oj.sleeping = true
+            · simp only [hjs, if_true, Option.some.injEq] at hs
+              subst hs
+              have hji : j ≠ i := by intro e; subst e; rw [ho] at hj; injection hj with hj; subst hj; rw [hos] at hjs; cases hjs
+              exact ⟨o, by simp only [updOp_other _ _ (Ne.symm hji)]; exact ho, hoa, hos⟩
+            · simp [hjs] at hs
+      · -- and its record stays away
+        intro r hm
+        cases l with
+        | start j p lt =>
+          simp only [step] at hs
+          cases hj : s.ops j with
+          | none => simp [hj] at hs; subst hs; exact hn r hm
+          | some oj =>
+            simp only [hj] at hs
+            by_cases hja : oj.alive = true
+            · simp [hja] at hs
+            · simp [hja] at hs; subst hs; exact hn r hm
+        | keepalive j =>
+          simp only [step] at hs
+          cases hj : s.ops j with
+          | none => simp [hj] at hs
+          | some oj =>
+            simp only [hj] at hs
+            by_cases hja : oj.alive = true
+            · simp only [hja, if_true, Option.some.injEq] at hs
+              subst hs
+              have hji : j ≠ i := by intro e; subst e; rw [ho] at hj; injection hj with hj; subst hj; rw [hoa] at hja; cases hja
+              exact hn r ((mem_patch_other hji).mp hm)
+            · simp [hja] at hs
+        | exit j =>
+          obtain ⟨_, _, _, _, hst, _⟩ := exit_spec hs
+          rw [hst] at hm
+          exact hn r (mem_erase.mp hm).1
+        | kill j =>
+          obtain ⟨_, _, _, _, hst, _⟩ := kill_spec hs
+          rw [hst] at hm; exact hn r hm
+        | deliver j =>
+          obtain ⟨_, _, _, _, hst, _, _, _⟩ := deliver_spec hs
+          rw [hst] at hm; exact hn r (List.mem_filter.mp hm).1
+        | tick d => simp only [step, Option.some.injEq] at hs; subst hs; exact hn r hm
+        | expire j => simp only [step, Option.some.injEq] at hs; subst hs; exact hn r hm
+        | foreign j v =>
+          simp only [step, Option.some.injEq] at hs
+          subst hs
+          by_cases hji : j = i
+          · subst hji
+            cases v with
+            | none => exact (mem_erase.mp hm).2 rfl
+            | some r' => exact hl2 r' rfl
+          · exact hn r ((mem_patch_other hji).mp hm)
+        | wake j =>
+          simp only [step] at hs
+          cases hj : s.ops j with
+          | none => simp [hj] at hs
+          | some oj =>
+            simp only [hj] at hs
+            by_cases hjs : oj.sleeping = true
+            · simp only [hjs, if_true, Option.some.injEq] at hs
+              subst hs
+              have hji : j ≠ i := by intro e; subst e; rw [ho] at hj; injection hj with hj; subst hj; rw [hos] at hjs; cases hjs
+              exact hn r ((mem_patch_other hji).mp hm)
+            · simp [hjs] at hs
+
 /-! ## non-vacuity -/
 
 def exA : Rec := { priority := 100, lifetime := 10, lastseen := 0 }
@@ -367,9 +505,9 @@ private theorem exStable_stable : ∀ s, exStable = some s → Stable 64 s := by
       updOp (updOp (updOp (updOp (fun _ => none) "A" { prio := 100, lifetime := 10, alive := true, paused := true, seen := none })
         "B" { prio := 10, lifetime := 8, alive := true, paused := true, seen := none })
         "A" { prio := 100, lifetime := 10, alive := true, paused := false, seen := some (2, 0) })
-        "B" { prio := 10, lifetime := 8, alive := true, paused := true, seen := some (2, 0) } i = some op →
+        "B" { prio := 10, lifetime := 8, alive := true, paused := true, seen := some (2, 0), sleeping := true } i = some op →
       (i = "A" ∧ op = { prio := 100, lifetime := 10, alive := true, paused := false, seen := some (2, 0) }) ∨
-      (i = "B" ∧ op = { prio := 10, lifetime := 8, alive := true, paused := true, seen := some (2, 0) }) := by
+      (i = "B" ∧ op = { prio := 10, lifetime := 8, alive := true, paused := true, seen := some (2, 0), sleeping := true }) := by
     intro i op h
     unfold updOp at h
     by_cases hB : i = "B"
@@ -386,7 +524,8 @@ private theorem exStable_stable : ∀ s, exStable = some s → Stable 64 s := by
     simp only [List.mem_cons, Prod.mk.injEq, List.mem_nil_iff, or_false] at hm
     rcases hm with ⟨rfl, rfl⟩ | ⟨rfl, rfl⟩
     · exact ⟨{ prio := 100, lifetime := 10, alive := true, paused := false, seen := some (2, 0) }, by simp [updOp], rfl, rfl⟩
-    · exact ⟨{ prio := 10, lifetime := 8, alive := true, paused := true, seen := some (2, 0) }, by simp [updOp], rfl, rfl⟩
+    · exact ⟨{ prio := 10, lifetime := 8, alive := true, paused := true, seen := some (2, 0), sleeping := true },
+        by simp [updOp], rfl, rfl⟩
   · intro i j oi oj hi hj _ _ hp
     rcases hops i oi hi with ⟨rfl, rfl⟩ | ⟨rfl, rfl⟩ <;> rcases hops j oj hj with ⟨rfl, rfl⟩ | ⟨rfl, rfl⟩ <;> simp_all
   · intro i op hi _
@@ -418,6 +557,10 @@ example : decideEv 64 [("X", .record { priority := some (.str "high"), lifetime 
 example : ((run 64 init [.start "A" 100 10, .start "B" 10 8, .keepalive "A", .keepalive "B", .deliver "A", .deliver "B",
                          .kill "A", .tick 400, .keepalive "B", .expire "A", .deliver "B"]).map
             (fun s => (s.now, s.status.map (·.1), (s.ops "B").map (·.paused)))) = some (640, ["B"], some false) := by decide
+
+-- the hypotheses of `withdrawn_stays_partial` are met by an operator that exits while nobody blocks it
+example : ((run 64 init [.start "A" 100 10, .keepalive "A", .deliver "A", .exit "A"]).map
+    (fun s => ((s.ops "A").map (fun o => (o.alive, o.sleeping)), s.status.map (·.1)))) = some (some (false, false), []) := by decide
 
 -- renewal hypotheses are satisfiable: lifetime 2, API calls of one tick (1/64 s)
 example : Renewed 64 2 0 [⟨2, 1, 5⟩, ⟨2, 1, 10⟩, ⟨2, 1, 7⟩] :=
